@@ -12,14 +12,14 @@ import (
 )
 
 const (
-	kHeaders = iota
-	kData
-	kRST
-	kPriority
-	kPush
+	zzkHeaders = iota
+	zzkData
+	zzkRST
+	zzkPriority
+	zzkPush
 )
 
-type item struct {
+type zzitem struct {
 	kind    int
 	end     bool
 	data    []byte
@@ -33,18 +33,18 @@ type item struct {
 // endpointPair is one direction of traffic: a sending endpoint (with its own
 // HPACK encoder state) and the receiving endpoint on the other side of the
 // relay (with its own HPACK decoder state, fed in wire order).
-type endpointPair struct {
-	w      *world
+type zzendpointPair struct {
+	w      *zzworld
 	c2s    bool
 	enc    *hpack.Encoder
 	encBuf bytes.Buffer
 	dec    *hpack.Decoder
-	sent   map[uint32][]item
-	recv   map[uint32][]item
+	sent   map[uint32][]zzitem
+	recv   map[uint32][]zzitem
 	conn   []string // connection-level frames received, rendered
 	// receive-side reassembly
 	curBlock  bytes.Buffer
-	curItem   *item
+	curItem   *zzitem
 	curStream uint32
 	// knownHPACK: the scenario is the one of known finding C08-hpack-encode-order; only what
 	// the receiver's HPACK decoder yields is attributed to it, everything else (frame kinds,
@@ -52,7 +52,7 @@ type endpointPair struct {
 	knownHPACK bool
 }
 
-func (p *endpointPair) hpackAssert(c bool, label string) {
+func (p *zzendpointPair) hpackAssert(c bool, label string) {
 	if p.knownHPACK {
 		vf.Known("C08-hpack-encode-order", true)
 		vf.Assert(c, label)
@@ -62,28 +62,28 @@ func (p *endpointPair) hpackAssert(c bool, label string) {
 	vf.Assert(c, label)
 }
 
-func newPair(w *world, c2s bool) *endpointPair {
-	p := &endpointPair{w: w, c2s: c2s, sent: map[uint32][]item{}, recv: map[uint32][]item{}}
+func zznewPair(w *zzworld, c2s bool) *zzendpointPair {
+	p := &zzendpointPair{w: w, c2s: c2s, sent: map[uint32][]zzitem{}, recv: map[uint32][]zzitem{}}
 	p.enc = hpack.NewEncoder(&p.encBuf)
 	p.dec = hpack.NewDecoder(4096, nil)
 	return p
 }
 
-func (p *endpointPair) writer() *http2.Framer {
+func (p *zzendpointPair) writer() *http2.Framer {
 	if p.c2s {
 		return p.w.cw
 	}
 	return p.w.sw
 }
 
-func (p *endpointPair) pump() error {
+func (p *zzendpointPair) pump() error {
 	if p.c2s {
 		return p.w.pumpClient()
 	}
 	return p.w.pumpServer()
 }
 
-func (p *endpointPair) encode(h []hpack.HeaderField) []byte {
+func (p *zzendpointPair) encode(h []hpack.HeaderField) []byte {
 	p.encBuf.Reset()
 	for _, f := range h {
 		p.enc.WriteField(f)
@@ -91,15 +91,15 @@ func (p *endpointPair) encode(h []hpack.HeaderField) []byte {
 	return append([]byte(nil), p.encBuf.Bytes()...)
 }
 
-var headerSets = [][]hpack.HeaderField{
+var zzheaderSets = [][]hpack.HeaderField{
 	{{Name: ":method", Value: "GET"}, {Name: ":path", Value: "/a"}, {Name: "x-custom", Value: "v1"}},
 	{{Name: "x-custom", Value: "v1"}, {Name: "x-other", Value: "v2"}},
 }
 
 // sendHeaders writes a header block as HEADERS [+ CONTINUATION...] cut at the
 // given points.
-func (p *endpointPair) sendHeaders(id uint32, set int, end bool, prio *http2.PriorityParam, cuts int, padLen int) {
-	h := headerSets[set]
+func (p *zzendpointPair) sendHeaders(id uint32, set int, end bool, prio *http2.PriorityParam, cuts int, padLen int) {
+	h := zzheaderSets[set]
 	block := p.encode(h)
 	var frags [][]byte
 	switch {
@@ -115,7 +115,7 @@ func (p *endpointPair) sendHeaders(id uint32, set int, end bool, prio *http2.Pri
 		}
 	}
 	hp := http2.HeadersFrameParam{StreamID: id, BlockFragment: frags[0], EndStream: end, EndHeaders: len(frags) == 1, PadLength: uint8(padLen)}
-	it := item{kind: kHeaders, end: end, hdrs: h}
+	it := zzitem{kind: zzkHeaders, end: end, hdrs: h}
 	if prio != nil {
 		hp.Priority = *prio
 		it.prio, it.hasPrio = *prio, true
@@ -127,7 +127,7 @@ func (p *endpointPair) sendHeaders(id uint32, set int, end bool, prio *http2.Pri
 	p.sent[id] = append(p.sent[id], it)
 }
 
-func (p *endpointPair) sendData(id uint32, data []byte, end bool, padded bool, padLen int) {
+func (p *zzendpointPair) sendData(id uint32, data []byte, end bool, padded bool, padLen int) {
 	var err error
 	if padded {
 		err = p.writer().WriteDataPadded(id, end, data, make([]byte, padLen))
@@ -135,11 +135,11 @@ func (p *endpointPair) sendData(id uint32, data []byte, end bool, padded bool, p
 		err = p.writer().WriteData(id, end, data)
 	}
 	vf.Assert(err == nil, "harness-write-data")
-	p.sent[id] = append(p.sent[id], item{kind: kData, end: end, data: data})
+	p.sent[id] = append(p.sent[id], zzitem{kind: zzkData, end: end, data: data})
 }
 
 // collect parses everything the relay delivered to the receiving endpoint.
-func (p *endpointPair) collect() {
+func (p *zzendpointPair) collect() {
 	var rd *http2.Framer
 	var buf *bytes.Buffer
 	if p.c2s {
@@ -167,7 +167,7 @@ func (p *endpointPair) collect() {
 		}
 		switch f := f.(type) {
 		case *http2.HeadersFrame:
-			it := &item{kind: kHeaders, end: f.StreamEnded()}
+			it := &zzitem{kind: zzkHeaders, end: f.StreamEnded()}
 			if f.HasPriority() {
 				it.prio, it.hasPrio = f.Priority, true
 			}
@@ -178,18 +178,18 @@ func (p *endpointPair) collect() {
 				p.finishBlock()
 			}
 		case *http2.PushPromiseFrame:
-			p.curItem, p.curStream = &item{kind: kPush, promise: f.PromiseID}, f.StreamID
+			p.curItem, p.curStream = &zzitem{kind: zzkPush, promise: f.PromiseID}, f.StreamID
 			p.curBlock.Reset()
 			p.curBlock.Write(f.HeaderBlockFragment())
 			if f.HeadersEnded() {
 				p.finishBlock()
 			}
 		case *http2.DataFrame:
-			p.recv[f.StreamID] = append(p.recv[f.StreamID], item{kind: kData, end: f.StreamEnded(), data: append([]byte(nil), f.Data()...)})
+			p.recv[f.StreamID] = append(p.recv[f.StreamID], zzitem{kind: zzkData, end: f.StreamEnded(), data: append([]byte(nil), f.Data()...)})
 		case *http2.RSTStreamFrame:
-			p.recv[f.StreamID] = append(p.recv[f.StreamID], item{kind: kRST, code: uint32(f.ErrCode)})
+			p.recv[f.StreamID] = append(p.recv[f.StreamID], zzitem{kind: zzkRST, code: uint32(f.ErrCode)})
 		case *http2.PriorityFrame:
-			p.recv[f.StreamID] = append(p.recv[f.StreamID], item{kind: kPriority, prio: f.PriorityParam})
+			p.recv[f.StreamID] = append(p.recv[f.StreamID], zzitem{kind: zzkPriority, prio: f.PriorityParam})
 		case *http2.WindowUpdateFrame:
 			// credit returned by the relay to this endpoint's peer direction: not part of the stream contents
 		default:
@@ -198,7 +198,7 @@ func (p *endpointPair) collect() {
 	}
 }
 
-func (p *endpointPair) finishBlock() {
+func (p *zzendpointPair) finishBlock() {
 	fields, err := p.dec.DecodeFull(p.curBlock.Bytes())
 	p.hpackAssert(err == nil, "header-block-decodes-under-receiver-hpack-state")
 	p.curItem.hdrs = fields
@@ -206,7 +206,7 @@ func (p *endpointPair) finishBlock() {
 	p.curItem = nil
 }
 
-func sameFields(a, b []hpack.HeaderField) bool {
+func zzsameFields(a, b []hpack.HeaderField) bool {
 	if len(a) != len(b) {
 		return false
 	}
@@ -218,12 +218,12 @@ func sameFields(a, b []hpack.HeaderField) bool {
 	return true
 }
 
-func (p *endpointPair) compare(tag string, streams []uint32) {
+func (p *zzendpointPair) compare(tag string, streams []uint32) {
 	vf.Assert(p.curItem == nil, tag+":no-unterminated-header-block")
 	for _, id := range streams {
 		// DATA is compared as a byte stream with its end-of-stream position, not frame by frame:
 		// the property fixes the bytes and where the stream ends, not how the relay cuts them
-		s, r := coalesceData(p.sent[id]), coalesceData(p.recv[id])
+		s, r := zzcoalesceData(p.sent[id]), zzcoalesceData(p.recv[id])
 		vf.Assert(len(s) == len(r), tag+":same-number-of-stream-frames")
 		if len(s) != len(r) {
 			return
@@ -234,23 +234,23 @@ func (p *endpointPair) compare(tag string, streams []uint32) {
 				return
 			}
 			switch s[i].kind {
-			case kHeaders:
-				p.hpackAssert(sameFields(s[i].hdrs, r[i].hdrs), tag+":header-fields-equal")
+			case zzkHeaders:
+				p.hpackAssert(zzsameFields(s[i].hdrs, r[i].hdrs), tag+":header-fields-equal")
 				vf.Assert(s[i].end == r[i].end, tag+":headers-end-stream-position")
 				vf.Assert(s[i].hasPrio == r[i].hasPrio, tag+":headers-priority-presence")
 				if s[i].hasPrio && r[i].hasPrio {
 					vf.Assert(s[i].prio == r[i].prio, tag+":headers-priority-equal")
 				}
-			case kData:
+			case zzkData:
 				vf.Assert(bytes.Equal(s[i].data, r[i].data), tag+":data-bytes-equal")
 				vf.Assert(s[i].end == r[i].end, tag+":data-end-stream-position")
-			case kRST:
+			case zzkRST:
 				vf.Assert(s[i].code == r[i].code, tag+":rst-code-equal")
-			case kPriority:
+			case zzkPriority:
 				vf.Assert(s[i].prio == r[i].prio, tag+":priority-equal")
-			case kPush:
+			case zzkPush:
 				vf.Assert(s[i].promise == r[i].promise, tag+":promised-id-equal")
-				vf.Assert(sameFields(s[i].hdrs, r[i].hdrs), tag+":push-header-fields-equal")
+				vf.Assert(zzsameFields(s[i].hdrs, r[i].hdrs), tag+":push-header-fields-equal")
 			}
 		}
 	}
@@ -259,10 +259,10 @@ func (p *endpointPair) compare(tag string, streams []uint32) {
 // coalesceData merges every run of consecutive DATA items into one item carrying the
 // concatenated bytes and the END_STREAM flag of the run's last frame (a frame after END_STREAM
 // cannot exist, so the flag marks the position at which the stream ends).
-func coalesceData(items []item) []item {
-	var out []item
+func zzcoalesceData(items []zzitem) []zzitem {
+	var out []zzitem
 	for _, it := range items {
-		if it.kind == kData && len(out) > 0 && out[len(out)-1].kind == kData && !out[len(out)-1].end {
+		if it.kind == zzkData && len(out) > 0 && out[len(out)-1].kind == zzkData && !out[len(out)-1].end {
 			last := &out[len(out)-1]
 			last.data = append(append([]byte(nil), last.data...), it.data...)
 			last.end = it.end
@@ -273,7 +273,7 @@ func coalesceData(items []item) []item {
 	return out
 }
 
-func symPriority(name string) *http2.PriorityParam {
+func zzsymPriority(name string) *http2.PriorityParam {
 	return &http2.PriorityParam{StreamDep: vf.Uint32(name+".dep") & 0x7fffffff, Exclusive: vf.Bool(name + ".excl"), Weight: vf.Uint8(name + ".weight")}
 }
 
@@ -282,12 +282,12 @@ func symPriority(name string) *http2.PriorityParam {
 // with or without END_STREAM), then DATA frames with symbolic bytes (padded or
 // not), then trailers or RST_STREAM.
 func VerifC08StreamLifecycle() {
-	w := newWorld(nil)
-	p := newPair(w, vf.Choice("direction", 2) == 0)
+	w := zznewWorld(nil)
+	p := zznewPair(w, vf.Choice("direction", 2) == 0)
 	id := uint32(1)
 	var prio *http2.PriorityParam
 	if vf.Choice("priority", 2) == 1 {
-		prio = symPriority("prio")
+		prio = zzsymPriority("prio")
 		vf.Assume(!(prio.StreamDep == 0 && !prio.Exclusive && prio.Weight == 0)) // IsZero means "no priority" to the framer
 	}
 	endOnHeaders := vf.Choice("end-on-headers", 2) == 1
@@ -306,7 +306,7 @@ func VerifC08StreamLifecycle() {
 		case 2: // reset
 			code := vf.Uint32("rst")
 			vf.Assert(p.writer().WriteRSTStream(id, http2.ErrCode(code)) == nil, "harness-write-rst")
-			p.sent[id] = append(p.sent[id], item{kind: kRST, code: code})
+			p.sent[id] = append(p.sent[id], zzitem{kind: zzkRST, code: code})
 		}
 	}
 	vf.Assert(p.pump() == nil, "relay-accepts-frames")
@@ -319,8 +319,8 @@ func VerifC08StreamLifecycle() {
 // zero so that DATA is held back while trailers of the same stream and headers
 // of another stream arrive; later a WINDOW_UPDATE releases the data.
 func VerifC08BlockedInterleave() {
-	w := newWorld(nil)
-	p := newPair(w, true)
+	w := zznewWorld(nil)
+	p := zznewPair(w, true)
 	blocked := vf.Choice("window-zero", 2) == 1
 	win := 0
 	if blocked {
@@ -337,7 +337,7 @@ func VerifC08BlockedInterleave() {
 		if reset { // RST_STREAM behind the held-back DATA: both must still arrive, in that order
 			code := vf.Uint32("rst")
 			vf.Assert(p.writer().WriteRSTStream(1, http2.ErrCode(code)) == nil, "harness-write-rst")
-			p.sent[1] = append(p.sent[1], item{kind: kRST, code: code})
+			p.sent[1] = append(p.sent[1], zzitem{kind: zzkRST, code: code})
 		} else {
 			p.sendHeaders(1, 1, true, nil, 0, 0)
 		}
@@ -374,7 +374,7 @@ func VerifC08BlockedInterleave() {
 	vf.Reach("done")
 }
 
-func render(f http2.Frame) string {
+func zzrender(f http2.Frame) string {
 	switch f := f.(type) {
 	case *http2.SettingsFrame:
 		s := "SETTINGS"
@@ -403,9 +403,9 @@ func render(f http2.Frame) string {
 // PRIORITY, RST_STREAM and PUSH_PROMISE (whole or continued) with symbolic
 // contents, in either direction; each must arrive with identical contents.
 func VerifC08ConnectionFrames() {
-	w := newWorld(nil)
+	w := zznewWorld(nil)
 	c2s := vf.Choice("direction", 2) == 0
-	p := newPair(w, c2s)
+	p := zznewPair(w, c2s)
 	wr := p.writer()
 	var want []string
 	kindChoice := vf.Choice("frame", 7)
@@ -436,18 +436,18 @@ func VerifC08ConnectionFrames() {
 		vf.Assert(wr.WriteGoAway(last, http2.ErrCode(code), dbg) == nil, "harness-write")
 		want = append(want, "GOAWAY "+string([]byte{byte(last >> 24), byte(last >> 16), byte(last >> 8), byte(last), byte(code >> 24), byte(code >> 16), byte(code >> 8), byte(code)})+string(dbg))
 	case 4:
-		pr := symPriority("prio")
+		pr := zzsymPriority("prio")
 		vf.Assume(pr.StreamDep != 5) // a stream cannot depend on itself
 		vf.Assert(wr.WritePriority(5, *pr) == nil, "harness-write")
-		p.sent[5] = append(p.sent[5], item{kind: kPriority, prio: *pr})
+		p.sent[5] = append(p.sent[5], zzitem{kind: zzkPriority, prio: *pr})
 	case 5:
 		code := vf.Uint32("rst")
 		vf.Assert(wr.WriteRSTStream(5, http2.ErrCode(code)) == nil, "harness-write")
-		p.sent[5] = append(p.sent[5], item{kind: kRST, code: code})
+		p.sent[5] = append(p.sent[5], zzitem{kind: zzkRST, code: code})
 	case 6:
 		promise := vf.Uint32("promise") & 0x7fffffff
 		vf.Assume(promise != 0)
-		block := p.encode(headerSets[0])
+		block := p.encode(zzheaderSets[0])
 		if vf.Choice("cuts", 2) == 0 {
 			vf.Assert(wr.WritePushPromise(http2.PushPromiseParam{StreamID: 5, PromiseID: promise, BlockFragment: block, EndHeaders: true}) == nil, "harness-write")
 		} else {
@@ -455,7 +455,7 @@ func VerifC08ConnectionFrames() {
 			vf.Assert(wr.WritePushPromise(http2.PushPromiseParam{StreamID: 5, PromiseID: promise, BlockFragment: block[:2], EndHeaders: false}) == nil, "harness-write")
 			vf.Assert(wr.WriteContinuation(5, true, block[2:]) == nil, "harness-write")
 		}
-		p.sent[5] = append(p.sent[5], item{kind: kPush, promise: promise, hdrs: headerSets[0]})
+		p.sent[5] = append(p.sent[5], zzitem{kind: zzkPush, promise: promise, hdrs: zzheaderSets[0]})
 	}
 	// Known finding: x/net's Framer (checkFrameOrder) does not track an open
 	// header block started by PUSH_PROMISE, so the CONTINUATION that follows is
@@ -478,7 +478,7 @@ func VerifC08ConnectionFrames() {
 		if err != nil {
 			break
 		}
-		if s := render(f); s != "" {
+		if s := zzrender(f); s != "" {
 			got = append(got, s)
 		}
 	}
@@ -501,13 +501,13 @@ func VerifC08ConnectionFrames() {
 }
 
 // segReader delivers its content in two pieces: first k bytes, then the rest.
-type segReader struct {
+type zzsegReader struct {
 	data  []byte
 	first int
 	calls int
 }
 
-func (s *segReader) Read(p []byte) (int, error) {
+func (s *zzsegReader) Read(p []byte) (int, error) {
 	if len(s.data) == 0 {
 		return 0, nil
 	}
@@ -528,7 +528,7 @@ func (s *segReader) Read(p []byte) (int, error) {
 // preface in two segments cut at every possible point.
 func VerifC08Preface() {
 	k := 1 + vf.Choice("first-segment", len(connectionPreface))
-	client := &segReader{data: append([]byte(nil), connectionPreface...), first: k}
+	client := &zzsegReader{data: append([]byte(nil), connectionPreface...), first: k}
 	var server bytes.Buffer
 	err := forwardPreface(&server, client)
 	vf.Assert(err == nil, "preface-forwarded-however-segmented")
